@@ -183,7 +183,10 @@ def opt_selected(ctx, body, ob):
     `rdata.type_code() == TYPE::OPT`, type_code yields OPT only for RData::OPT (or a stored Empty(ty)),
     and the parser never builds RData::Empty(TYPE::OPT)."""
     prog, cg = ctx.prog, ctx.cg
-    sites = cg.callsites.get(body.id, [])
+    import inline
+    inv = inline.load_inventory(__import__("facts").VERIF)
+    # the standalone copy of a helper that has been inlined into its caller is not a caller of its own
+    sites = [(c, x) for c, x in cg.callsites.get(body.id, []) if (prog.bodies.get(c.root, c).qname if c.kind == "Closure" else c.qname) in inv]
     callers = sorted(set(c.qname for c, _ in sites))
     if callers != ["simple_dns::Packet::parse"]:
         return False, "callers are %s, expected only Packet::parse" % callers
